@@ -114,8 +114,8 @@ def sample_args(entry: ClassEntry, rng, n: int):
     return out
 
 
-class _Timeout(Exception):
-    pass
+class _Timeout(BaseException):
+    """Not an Exception: must not be swallowed by `except Exception` inside SymPy or the harness."""
 
 
 def with_cap(seconds: float, fn, *args):
@@ -293,6 +293,8 @@ def regenerate():
     hashes = common.source_blob_hashes(SOURCES)
     header = "sources: " + ", ".join(f"{k}@{v[:10]}" for k, v in hashes.items())
     common.write_if_changed(common.LEAN / GEN_REL, render_table(entries, helpers, ctx, header))
+    # C14 and C15 share the generated module: build it under ONE lock key before anything else does
+    common.lake_build([GEN_MODULE])
     return entries, helpers, ctx
 
 
@@ -316,12 +318,13 @@ SOURCES = [
 class Pools:
     """Argument pools (real SymPy objects) for random instances."""
 
-    def __init__(self, entries):
+    def __init__(self, entries, friendly: bool = False):
         import sympy as sp
 
         from ampform.kinematics.lorentz import FourMomentumSymbol
 
         self.entries = entries
+        self.friendly = friendly  # oracle mode: arguments that keep doit()/numeric evaluation tractable
         self.scalars = [sp.Symbol("x"), sp.Symbol("y", real=True), sp.Symbol("m", positive=True), sp.Symbol("s", nonnegative=True),
                         sp.Symbol("w"), sp.Symbol("L", integer=True, nonnegative=True)]
         self.momenta = [FourMomentumSymbol(f"p{i}", shape=[]) for i in range(3)]
@@ -367,7 +370,7 @@ class Pools:
 
             cls = lorentz._OnesArray if n == "ones" else lorentz._ZerosArray  # noqa: SLF001
             return cls(ArraySize(rng.choice(self.momenta)))
-        if n in {"angular_momentum", "l"} and rng.random() < 0.5:
+        if n in {"angular_momentum", "l"} and (self.friendly or rng.random() < 0.5):
             import sympy as sp
 
             return sp.Integer(rng.randint(0, 2))
